@@ -93,9 +93,9 @@ theorem read_exact_arm_total (nAccept nConnect h : Nat) (d : Dispatched)
     split at hk
     · rename_i e; simp [e]; rfl
     · split at hk
-      · rename_i e0 e; simp only [e0, e, if_false, if_true]; rfl
+      · rename_i e0 e; simp only [e, if_true]; rfl
       · split at hk
-        · rename_i e0 e1 e; cases hk; simp only [e0, e1, e, if_false, if_true]; rfl
+        · rename_i e0 e1 e; cases hk; simp only [e, if_true]; rfl
         · cases hk
   simp only [] at hd
   split at hd
@@ -382,19 +382,20 @@ theorem timestamp_display_legacy_panics_iff (d : Dur) :
       omega
     simp [this, Res.isPanic, h]
 
-/-- **Latent defect on the current tree (Debug rendering).** `{:?}` of an accepted timestamp panics exactly when
-`seconds = i64::MIN` and the normalised nanos are negative; witness `{seconds: i64::MIN, nanos: -1}`. No production
-code path Debug-formats a received `NetAddress`, so this is recorded, not counted as reachable. -/
-theorem timestamp_debug_can_panic :
-    ∃ d, timestampRead ⟨some (-9223372036854775808), some (-1)⟩ = .ok d ∧ (utcDebug d).isPanic = true := by
+/-- **timestamp_debug_total.** Every accepted timestamp can be rendered with `{:?}` (`NetAddress` derives `Debug`
+through it). -/
+theorem timestamp_debug_total (d : Dur) : (utcDebug d).isPanic = false := rfl
+
+/-- **F11 is load-bearing.** Before the repair, `{:?}` of an accepted timestamp panicked exactly when
+`seconds = i64::MIN` and the normalised nanos are negative; witness `{seconds: i64::MIN, nanos: -1}`. -/
+theorem timestamp_debug_legacy_panics :
+    ∃ d, timestampRead ⟨some (-9223372036854775808), some (-1)⟩ = .ok d ∧ (utcDebugLegacy d).isPanic = true := by
   refine ⟨⟨-9223372036854775808, -1⟩, by decide, by decide⟩
 
-theorem timestamp_debug_ok_iff (d : Dur) :
-    (utcDebug d).isPanic = false ↔ ¬ (d.secs = -9223372036854775808 ∧ d.nanos < 0) := by
-  unfold utcDebug I64_MIN
-  by_cases h : d.secs = -9223372036854775808 ∧ d.nanos < 0
-  · rw [if_pos h]; simp [Res.isPanic, h]
-  · rw [if_neg h]; simp [Res.isPanic, h]
+theorem timestamp_debug_legacy_panics_iff (d : Dur) :
+    (utcDebugLegacy d).isPanic = true ↔ (d.secs = -9223372036854775808 ∧ d.nanos < 0) := by
+  unfold utcDebugLegacy inSystemTimeRange I64_MIN
+  by_cases h1 : d.secs = -9223372036854775808 <;> by_cases h2 : d.nanos < 0 <;> simp [h1, h2, Res.isPanic]
 
 /-- **bitvec_read_total**, with the exact acceptance condition; the vector is built from the bytes received, `size`
 is only compared (nothing is allocated from `size`: `bitvecAlloc` does not mention it). -/
